@@ -81,7 +81,7 @@ def compile (lits : Lits) : Expr → Option BufFilter
         | some a, some b => some (.or a b)
         | _, _ => none
       else none
-  | .search text value _ =>
+  | .search text value (.this _) =>
     match lits value with
     | none => none
     | some lit =>
@@ -97,22 +97,24 @@ def compile (lits : Lits) : Expr → Option BufFilter
           | some left, some right => some (.or left right)
           | _, _ => none
       | _ => none      -- the evaluator has no comparison for such a literal: the program does not compile
+  -- a search over a computed operand has no buffer filter: the term need not occur in the frame
   | _ => none
 
 /-- the local type context of a stream segment: type id ↦ type. -/
 abbrev Ctx := Nat → Option Ty
 
 /-- `FieldNameFinder.Find` over the messages of a frame: true for a non-record value, for an
-    unknown type id, and when a leaf name of the value's record type contains the pattern. -/
+    unknown type id, and when a leaf name of a record type inside the value's type contains the
+    pattern. -/
 def fieldNameFind (ctx : Ctx) (pat : Bytes) : List (Nat × Val) → Bool
   | [] => false
   | (id, _) :: r =>
     (match ctx id with
      | none => true
      | some t =>
-       match recordNames t with
-       | none => true
-       | some ns => ns.any (stringSearch pat)) || fieldNameFind ctx pat r
+       match under t with
+       | .record fs => matchType pat (.record fs)
+       | _ => true) || fieldNameFind ctx pat r
 
 def byteEq (a b : UInt8) : Bool := a == b
 
